@@ -156,6 +156,29 @@ where
 }
 
 #[cfg(mina_verif)]
+mod verif_hook {
+    /// Seconds as `f64`, whatever type the animator keeps its clock in.
+    pub trait VerifSeconds {
+        fn verif_seconds(&self) -> f64;
+    }
+    impl VerifSeconds for std::time::Duration {
+        fn verif_seconds(&self) -> f64 {
+            self.as_secs_f64()
+        }
+    }
+    impl VerifSeconds for f32 {
+        fn verif_seconds(&self) -> f64 {
+            *self as f64
+        }
+    }
+    impl VerifSeconds for f64 {
+        fn verif_seconds(&self) -> f64 {
+            *self
+        }
+    }
+}
+
+#[cfg(mina_verif)]
 impl<State, Timeline, TimelineMap> MappedTimelineAnimator<State, Timeline, TimelineMap>
 where
     State: Clone + PartialEq,
@@ -163,10 +186,16 @@ where
     Timeline::Target: Clone,
     TimelineMap: MapLike<State, MergedTimeline<Timeline>>,
 {
-    /// Verification hook (only with `--cfg mina_verif`): read-only copy of the time spent in the
-    /// current state and of the remembered (paused) animation.
-    pub fn verif_snapshot(&self) -> (Duration, Option<(State, Duration)>) {
-        (self.state_duration, self.paused_animation.clone())
+    /// Verification hook (only with `--cfg mina_verif`): read-only copy, in seconds, of the time
+    /// spent in the current state and of the remembered (paused) animation.
+    pub fn verif_snapshot(&self) -> (f64, Option<(State, f64)>) {
+        use verif_hook::VerifSeconds;
+        (
+            self.state_duration.verif_seconds(),
+            self.paused_animation
+                .as_ref()
+                .map(|(state, position)| (state.clone(), position.verif_seconds())),
+        )
     }
 }
 
